@@ -32,6 +32,21 @@ def reg(width):
     return _POOL[width][k % 10]
 
 
+_BY = []
+
+
+def by_reg(i):
+    if not _BY:
+        from amaranth_soc import csr
+        from amaranth_soc.csr import action
+
+        class RB(csr.Register, access="rw"):
+            def __init__(self):
+                super().__init__({"f": csr.Field(action.RW, 1)})
+        _BY.extend(RB() for _ in range(24))
+    return _BY[i % len(_BY)]
+
+
 def clog2(n):
     return (n - 1).bit_length() if n > 0 else 0
 
@@ -119,6 +134,13 @@ def execute_factory(cfg):
         first_reg = None
         err = None
         ratio = cfg["dw"] // cfg["g"]
+        # a second, independent builder that is filled in step with the first one (inside a cluster of its own):
+        # two builders share nothing, whatever scopes are open in the other
+        by = cm_by = None
+        if cfg.get("bystander"):
+            by = csr.Builder(addr_width=6, data_width=cfg["dw"], granularity=cfg["g"])
+            cm_by = by.Cluster("by")
+            cm_by.__enter__()
         for pos, op in enumerate(history):
             last = pos == len(history) - 1
             kind = op[0]
@@ -206,6 +228,12 @@ def execute_factory(cfg):
                     err = dict(msg=f"{op}: {type(e).__name__}: {e}", signature=dict(kind="oracle", what="internal_error"))
             if raised is None and appended is not None:
                 regs.append(appended)
+            if by is not None:
+                try:
+                    by.add(f"s{pos}", by_reg(pos))
+                except Exception as e:
+                    err = err or dict(msg=f"a second, independent builder refused a valid register after {op}: {type(e).__name__}: {e}",
+                                      signature=dict(kind="oracle", what="bystander"))
             if last and err is None:
                 if exp == "ok" and raised is not None:
                     err = dict(msg=f"{op} was refused ({type(raised).__name__}: {str(raised)[:100]}) but is valid",
@@ -224,6 +252,17 @@ def execute_factory(cfg):
         except Exception as e:
             got, shape_ok = None, True
             err = err or dict(msg=f"as_memory_map(): {type(e).__name__}: {e}", signature=dict(kind="oracle", what="internal_error"))
+        if by is not None and err is None:
+            try:
+                cm_by.__exit__(None, None, None)
+                got2 = [(tuple(name), s, e) for _, name, (s, e) in by.as_memory_map().resources()]
+                want2 = [(("by", f"s{i}"), i, i + 1) for i in range(len(history))]
+                if got2 != want2:
+                    err = dict(msg=f"a second, independent builder filled in step with this one has layout {got2}, expected {want2}",
+                               signature=dict(kind="oracle", what="bystander"))
+            except Exception as e:
+                err = dict(msg=f"a second, independent builder filled in step with this one: {type(e).__name__}: {e}",
+                           signature=dict(kind="oracle", what="bystander"))
         while cms:                     # leave open scopes in LIFO order (keeps the garbage collector quiet)
             try:
                 cms.pop().__exit__(None, None, None)
@@ -252,6 +291,8 @@ def configs(tier):
     out.append(dict(aw=4, dw=8, g=8, alphabet="scopes", depth=6 if tier == "quick" else 8))
     out.append(dict(aw=5, dw=8, g=8, alphabet="many", depth=5 if tier == "quick" else 7))
     out.append(dict(aw=5, dw=32, g=16, alphabet="many", depth=4 if tier == "quick" else 6))
+    out.append(dict(aw=4, dw=8, g=8, alphabet="scopes", depth=4 if tier == "quick" else 6, bystander=True))
+    out.append(dict(aw=3, dw=16, g=8, depth=2 if tier == "quick" else 3, bystander=True))
     if tier != "quick":
         out += [dict(aw=2, dw=8, g=8, depth=5), dict(aw=3, dw=64, g=16, depth=3), dict(aw=4, dw=8, g=4, depth=3)]
     return out
